@@ -58,6 +58,10 @@ pub fn init_math(interp: &mut Interpreter) -> Gc<JsObject> {
     interp.register_method(&math_obj, "cbrt", math_cbrt, 1);
     interp.register_method(&math_obj, "hypot", math_hypot, 2);
 
+    // 32-bit integer helpers
+    interp.register_method(&math_obj, "imul", math_imul, 2);
+    interp.register_method(&math_obj, "clz32", math_clz32, 1);
+
     // Logarithmic and exponential
     interp.register_method(&math_obj, "log", math_log, 1);
     interp.register_method(&math_obj, "log10", math_log10, 1);
@@ -398,6 +402,29 @@ pub fn math_hypot(
     Ok(Guarded::unguarded(JsValue::Number(prelude_math::sqrt(
         sum_sq,
     ))))
+}
+
+pub fn math_imul(
+    _interp: &mut Interpreter,
+    _this: JsValue,
+    args: &[JsValue],
+) -> Result<Guarded, JsError> {
+    let a = crate::value::to_int32(args.first().map(|v| v.to_number()).unwrap_or(f64::NAN));
+    let b = crate::value::to_int32(args.get(1).map(|v| v.to_number()).unwrap_or(f64::NAN));
+    Ok(Guarded::unguarded(
+        JsValue::Number(a.wrapping_mul(b) as f64),
+    ))
+}
+
+pub fn math_clz32(
+    _interp: &mut Interpreter,
+    _this: JsValue,
+    args: &[JsValue],
+) -> Result<Guarded, JsError> {
+    let n = crate::value::to_uint32(args.first().map(|v| v.to_number()).unwrap_or(f64::NAN));
+    Ok(Guarded::unguarded(
+        JsValue::Number(n.leading_zeros() as f64),
+    ))
 }
 
 pub fn math_log10(
